@@ -50,7 +50,7 @@ struct Op {
 };
 
 inline const std::vector<const char*>& angleTable() {
-    static const std::vector<const char*> t = {"0.0", "1.5707964", "3.1415927", "6.2831855", "0.000000001", "1000.0", "0.3", "1.1", "2.7", "4.4", "5.9", "0.7853982", "2.0943951", "12.566371", "0.0001", "0.0003", "0.00005", "0.0006"};
+    static const std::vector<const char*> t = {"0.0", "1.5707964", "3.1415927", "6.2831855", "0.000000001", "1000.0", "0.3", "1.1", "2.7", "4.4", "5.9", "0.7853982", "2.0943951", "12.566371", "0.0001", "0.0003", "0.00005", "0.0006", "0.00001", "0.000003"};
     return t;
 }
 inline double angleValue(const Op& o) {
@@ -355,7 +355,7 @@ inline Plan generate(sim::Rng& g, const GenOptions& go) {
             o.kind = GATE;
             o.h = Handle{4, aliases[g.below(aliases.size())], 0};
             o.gate = g.chance(0.5) ? 1 : (int)g.below(7);
-            o.angle = (int)g.below(18);
+            o.angle = (int)g.below(20);
             o.path = (int)g.below(2);
             p.ops.push_back(o);
             continue;
@@ -404,7 +404,7 @@ inline Plan generate(sim::Rng& g, const GenOptions& go) {
                 continue;
             }
             if (w == 4) w = 0;
-            if (w == 0 || active.empty()) { o.kind = GATE; o.h = live[k].h; o.gate = (int)g.below(7); o.angle = (int)g.below(18); }
+            if (w == 0 || active.empty()) { o.kind = GATE; o.h = live[k].h; o.gate = (int)g.below(7); o.angle = (int)g.below(20); }
             else if (w == 1) { o.kind = g.chance(0.5) ? MEAS_STMT : MEAS_EXPR; o.h = live[k].h; if (o.kind == MEAS_EXPR) o.bitvar = bitvars++; drawSpec(o); }
             else { o.kind = CX; size_t a = active[g.below(active.size())]; if (w == 2) { o.h = live[k].h; o.h2 = live[a].h; } else { o.h = live[a].h; o.h2 = live[k].h; } }
             p.ops.push_back(o);
@@ -446,7 +446,7 @@ inline Plan generate(sim::Rng& g, const GenOptions& go) {
             o.kind = GATE;
             o.h = live[active[g.below(active.size())]].h;
             o.gate = g.chance(go.entangleBias) ? (g.chance(0.6) ? 0 : 5) : (int)g.below(7);
-            o.angle = (int)g.below(18);
+            o.angle = (int)g.below(20);
             o.angleNeg = g.chance(0.3);
             if (bitvars > 0 && g.chance(0.15)) { o.kind = IFGATE; o.cond = (int)g.below((uint64_t)bitvars); }
             p.ops.push_back(o);
